@@ -106,6 +106,62 @@ run_ossps(const World& w, const RunCfg& rc, const std::vector<float>& start_imag
   out.it.push_back(World::vec_from(*tgt));
 }
 
+// "interrupted and resumed" with the SAME reconstruction and objective-function objects (see c07): sub-iterations 1..k, then the
+// same objects are told to start at k+1, set up again and run to Ntot on the image they left.  out = second leg.
+static bool
+run_ossps_resumed_same_objects(const World& w, const RunCfg& rc, const std::vector<float>& start_image, int k, const std::string& prefix, RunOut& out)
+{
+  shared_ptr<RecObj> obj = make_objective(w, rc.N, rc.prior, rc.use_subset_sens);
+  OSSPSReconstruction<Target> recon;
+  recon.set_objective_function_sptr(obj);
+  recon.set_num_subsets(rc.N);
+  recon.set_num_subiterations(k);
+  recon.set_start_subset_num(rc.start_subset);
+  recon.set_start_subiteration_num(1);
+  recon.set_randomise_subset_order(rc.randomise);
+  recon.set_output_filename_prefix(prefix);
+  recon.set_disable_output(true);
+  recon.set_save_interval(k);
+  {
+    std::ostringstream par;
+    par << "OSSPSParameters :=\n";
+    par << "relaxation parameter := " << vf::fmt("%.9g", rc.alpha) << "\n";
+    par << "relaxation gamma := " << vf::fmt("%.9g", rc.gamma) << "\n";
+    if (rc.has_upper)
+      par << "upper bound := " << vf::fmt("%.9g", rc.upper) << "\n";
+    par << "enforce initial positivity condition := 0\n";
+    par << "End :=\n";
+    std::istringstream in(par.str());
+    if (!recon.parse(in))
+      return false;
+  }
+  shared_ptr<Target> tgt = w.img_from(start_image);
+  if (recon.set_up(tgt) != Succeeded::yes)
+    return false;
+  if (recon.reconstruct(tgt) != Succeeded::yes)
+    return false;
+  recon.set_start_subiteration_num(k + 1);
+  recon.set_num_subiterations(rc.Ntot);
+  recon.set_save_interval(rc.Ntot);
+  out.start = k + 1;
+  out.given_start = World::vec_from(*tgt);
+  if (recon.set_up(tgt) != Succeeded::yes)
+    return false;
+  out.start_after_setup = World::vec_from(*tgt);
+  obj->calls.clear();
+  if (recon.reconstruct(tgt) != Succeeded::yes)
+    return false;
+  out.it.clear();
+  out.subsets.clear();
+  for (const RecObj::Call& c : obj->calls)
+    {
+      out.it.push_back(c.input);
+      out.subsets.push_back(c.subset);
+    }
+  out.it.push_back(World::vec_from(*tgt));
+  return true;
+}
+
 static double
 zeta(const RunCfg& rc, int n)
 {
@@ -537,6 +593,71 @@ run_case(Ctx& ctx)
             ctx.count("file_roundtrip_restarts");
           if (den_from_file)
             ctx.count("restarts_with_denominator_read_from_file");
+        }
+      // (4b) the same objects interrupted after k and resumed (start sub-iteration k+1, set_up again, reconstruct)
+      // VERIF_NO_SAME_OBJECT_RESUME: development switch (shows what the check saw before this clause existed)
+      if (!std::getenv("VERIF_NO_SAME_OBJECT_RESUME") && rc.Ntot >= 2 && rc.positivity == 0 && same_bits(main.given_start, main.start_after_setup) && rng.coin(ctx.thorough() ? 0.8 : 0.5))
+        {
+          const int k = static_cast<int>(rng.range(1, rc.Ntot - 1));
+          ctx.heartbeat(vf::fmt("same-object-resume-at-%d", k + 1));
+          RunOut r;
+          if (!run_ossps_resumed_same_objects(w, rc, start, k, prefix + vf::fmt("_resume%d", k + 1), r))
+            ctx.count("same_object_resumes_rejected_by_library");
+          else if (static_cast<int>(r.subsets.size()) != rc.Ntot - k)
+            ctx.violation("ossps:resume-same-objects:number-of-updates-differs", vf::fmt("%zu updates for sub-iterations %d..%d", r.subsets.size(), k + 1, rc.Ntot));
+          else if (!same_bits(r.given_start, main.after(k)))
+            ctx.violation("ossps:resume-same-objects:first-leg-differs-from-uninterrupted-run",
+                          vf::fmt("iterate after %d sub-iterations of a run limited to %d: %s", k, k,
+                                  w.vox_name(std::max(0, first_diff(r.given_start, main.after(k)))).c_str()));
+          else if (!same_bits(r.given_start, r.start_after_setup))
+            ctx.violation("ossps:resume-same-objects:set_up-changed-the-image-without-enforce_initial_positivity",
+                          w.vox_name(std::max(0, first_diff(r.given_start, r.start_after_setup))));
+          else
+            {
+              bool ok = true, reset_zero_sens = false;
+              for (int v = 0; v < w.nvox && ok; ++v)
+                {
+                  const float a = main.after(k)[v], b = r.after(k)[v];
+                  if (std::memcmp(&a, &b, sizeof(float)) != 0)
+                    {
+                      if (s_total[v] == 0 && b == 0.f)
+                        reset_zero_sens = true;
+                      else
+                        {
+                          ctx.violation("ossps:resume-same-objects:first-update-does-not-start-from-the-iterate-left",
+                                        vf::fmt("resume at %d: %s left %.9g, used %.9g", k + 1, w.vox_name(v).c_str(), a, b));
+                          ok = false;
+                        }
+                    }
+                }
+              for (int j = k + 1; j <= rc.Ntot && ok; ++j)
+                {
+                  if (r.subsets[static_cast<size_t>(j - k - 1)] != main.subsets[static_cast<size_t>(j - 1)])
+                    {
+                      ctx.violation("ossps:resume-same-objects:subset-schedule-differs-from-uninterrupted-run",
+                                    vf::fmt("resumed at %d: sub-iteration %d uses subset %d, uninterrupted run used %d", k + 1, j,
+                                            r.subsets[static_cast<size_t>(j - k - 1)], main.subsets[static_cast<size_t>(j - 1)]));
+                      ok = false;
+                    }
+                  else if (!same_bits(r.after(j), main.after(j)))
+                    {
+                      const int v = std::max(0, first_diff(r.after(j), main.after(j)));
+                      const std::string wit = vf::fmt("same objects interrupted after %d and resumed: iterate %d %s = %.9g, uninterrupted %.9g (num_subsets %d, "
+                                                      "subset sensitivities %d, prior %d, sensitivity of that voxel %.6g)",
+                                                      k, j, w.vox_name(v).c_str(), r.after(j)[static_cast<size_t>(v)], main.after(j)[static_cast<size_t>(v)], rc.N,
+                                                      rc.use_subset_sens, rc.prior.kind, s_total[v]);
+                      if (reset_zero_sens)
+                        ctx.violation("ossps:resume-same-objects:voxels-without-sensitivity-reset-to-zero-at-resume-only", wit);
+                      else
+                        ctx.violation(std::string("ossps:resume-same-objects:iterate-differs-from-uninterrupted-run") + (rc.prior.kind ? ":with-prior" : ""), wit);
+                      ok = false;
+                    }
+                  else
+                    ctx.count("same_object_resume_iterates_compared");
+                }
+              if (ok)
+                ctx.count("same_object_resumes_checked");
+            }
         }
     }
   ctx.nontrivial = w.nnz >= 30 && w.total_counts > 0 && updates_checked >= 2;
